@@ -173,7 +173,7 @@ def run_scenario(run: Run, scen: dict, rng: random.Random):
 
 
 def check(run: Run, tier: str, seed: int):
-    n = 240 if tier == "quick" else 3000
+    n = 480 if tier == "quick" else 3000
     base = dict(leaf_kinds=["emb"], weight_pz=["id"])
     for i in range(n):
         srng = random.Random(f"C08-{seed}-{i}")
